@@ -3,6 +3,7 @@
    of the supplied variants"), not about the graph engine; the engine is tied to must_set by the
    correspondence harness/props/c01.py only.
    Record kinds covered: SNV / MNV / INDEL on a linear transcript. *)
+From MoPep Require Gen.Expasy Model.ExpasyRef Proofs.ExpasyProofs.
 From MoPep Require Import Model.Base Model.Rule Model.Digest Model.Spec Model.SpecStmt Gen.Bio Gen.Expasy
                           Proofs.SpecProofs Model.W2F Model.SpecAlt Model.SpecAltStmt Proofs.SpecAltProofs.
 Open Scope Z_scope.
@@ -56,3 +57,10 @@ Definition ex_input : input :=
   mkInput ex_tx true 0 false false [] [mkVar 10 11 [65] true] ex_trypsin None (mkLimits 1 0 3 30) [].
 Example must_set_nonvacuous : In [77;65;75;68;87;82] (must_set ex_input).
 Proof. vm_compute. tauto. Qed.
+
+(* The oracle of this property digests with the rule tables regenerated from expasy_rules.py
+   (coq/Gen/Expasy.v); they must be the ExPASy reference rules (same obligation as in Props/C10.v),
+   otherwise model and implementation would silently follow a changed rule together. *)
+Theorem rules_are_expasy_reference : MoPep.Gen.Expasy.site_rules = MoPep.Model.ExpasyRef.reference_rules.
+Proof. exact MoPep.Proofs.ExpasyProofs.rules_match_reference_proof. Qed.
+Print Assumptions rules_are_expasy_reference.
